@@ -393,7 +393,17 @@ def sig_term_ite(case, res):
     return any(has_term_ite(t) for t in A) and any(has_term_ite(t) for t in B)
 
 
+def sig_lra_factor(case, res):
+    """:interpolation-lra-algorithm 3 (strength factor): the interpolant of strict bounds comes out non-strict"""
+    d = res.detail or {}
+    w = str(d.get("what", ""))
+    if not (w.startswith("interpolant-consistent-with-B") or w.startswith("A-does-not-imply") or w.startswith("path-property-fails")):
+        return False
+    return gen.opt_get(case, ":interpolation-lra-algorithm") == "3"
+
+
 SIGNATURES = {"interpolation-with-formula-asserted-more-than-once": sig_duplicate_formula,
+              "lra-strength-factor-interpolant-loses-strictness": sig_lra_factor,
               
               "interpolant-mentions-div-mod-auxiliary": sig_divmod_symbol,
               "interpolation-group-conjunction-simplifies": sig_conjunction_simplified,
